@@ -209,6 +209,7 @@ type secretsRun struct {
 	}
 	trace []string
 	nGen  map[string]int
+	pfx   string // counter prefix
 }
 
 func (sr *secretsRun) learn(k ksrig.ModelKind, id []byte) {
@@ -240,8 +241,8 @@ func (sr *secretsRun) export(rng *gen.Rand) {
 	g := sr.g
 	add := func(via string, b *keystore.KeysBackup, err error) {
 		if err != nil || b == nil {
-			sr.r.Count("a_export_errors(not decided here)", 1)
-			sr.r.SetAdd("a_export_error_texts", via+": "+fmt.Sprint(err))
+			sr.r.Count(sr.pfx+"export_errors(not decided here)", 1)
+			sr.r.SetAdd(sr.pfx+"export_error_texts", via+": "+fmt.Sprint(err))
 			if os.Getenv("C07_DEBUG") != "" {
 				fmt.Println("EXPORT-ERR", via, err)
 			}
@@ -281,7 +282,13 @@ func (sr *secretsRun) export(rng *gen.Rand) {
 			if err != nil {
 				return
 			}
-			bk, err := filesystem.NewKeyBackuper(g.dir, "", &filesystem.DummyStorage{}, enc, sr.H)
+			var st filesystem.Storage = &filesystem.DummyStorage{}
+			if g.redis != nil {
+				if st, err = g.redis.v1Storage(); err != nil {
+					return
+				}
+			}
+			bk, err := filesystem.NewKeyBackuper(g.dir, "", st, enc, sr.H)
 			if err != nil {
 				return
 			}
@@ -317,21 +324,27 @@ func (sr *secretsRun) export(rng *gen.Rand) {
 		}
 	})
 	if site != "" {
-		sr.r.Count("a_export_panics(not decided here)", 1)
+		sr.r.Count(sr.pfx+"export_panics(not decided here)", 1)
 	}
 }
 
 func runSecretsHistory(r *ev.Run, idx int) {
 	cfg := configs[idx%len(configs)]
-	rng := gen.New(r.Seed, fmt.Sprintf("c07/secrets/%d", idx))
-	g := newRig(cfg, "")
+	runSecretsHistoryOn(r, idx, cfg, newRig(cfg, ""), "a_", "", nil)
+}
+
+// runSecretsHistoryOn is one history of oracle (a) on the given rig. pfx is the counter prefix ("a_", the Redis layer:
+// "ra_"), sigPfx the signature prefix ("" / "redis "); after, if set, runs once the history and its scan are over (the
+// Redis layer looks at the server's command log and dataset there).
+func runSecretsHistoryOn(r *ev.Run, idx int, cfg config, g *rig, pfx, sigPfx string, after func(sr *secretsRun)) {
+	rng := gen.New(r.Seed, fmt.Sprintf("c07/secrets/%s%d", sigPfx, idx))
 	defer g.destroy()
 	H, err := g.open(cfg.cache)
 	if err != nil {
 		r.Inconclusive(fmt.Sprintf("secrets history %d: open: %v", idx, err))
 		return
 	}
-	sr := &secretsRun{r: r, g: g, H: H, set: newSecretSet(), nGen: map[string]int{}}
+	sr := &secretsRun{r: r, g: g, H: H, set: newSecretSet(), nGen: map[string]int{}, pfx: pfx}
 	n := 8 + rng.Intn(25)
 	for step := 0; step < n; step++ {
 		k := ksrig.ModelKinds[rng.Intn(len(ksrig.ModelKinds))]
@@ -393,13 +406,13 @@ func runSecretsHistory(r *ev.Run, idx int) {
 			}
 		}
 	}
-	r.Count("a_secrets_known", int64(len(sr.set.names)))
-	r.Count("a_histories", 1)
-	r.SetAdd("a_configs", cfg.name)
+	r.Count(pfx+"secrets_known", int64(len(sr.set.names)))
+	r.Count(pfx+"histories", 1)
+	r.SetAdd(pfx+"configs", cfg.name)
 
 	report := func(sink string, via string, path string, blob []byte, h *hit) {
 		kind := sr.set.kinds[h.secret]
-		r.Violation(fmt.Sprintf("%s clear key material at rest: sink=%s key-kind=%s encoding=%s", cfg.fmtName(), sink, kind, h.encoding),
+		r.Violation(fmt.Sprintf("%s%s clear key material at rest: sink=%s key-kind=%s encoding=%s", sigPfx, cfg.fmtName(), sink, kind, h.encoding),
 			map[string]interface{}{"config": cfg.name, "history": idx, "seed": r.Seed, "secret": sr.set.names[h.secret], "via": via, "path": path, "offset": h.offset,
 				"blob": ev.FullHex(blob), "trace": sr.trace})
 	}
@@ -407,20 +420,20 @@ func runSecretsHistory(r *ev.Run, idx int) {
 		switch {
 		case c.RecIsWrite():
 			r.Case()
-			r.Count("a_blobs_scanned_storage_writes", 1)
+			r.Count(pfx+"blobs_scanned_storage_writes", 1)
 			r.Distinct(fmt.Sprintf("%s|a|storage.%s|%s", cfg.name, c.Op, fileRole(cfg, c.Path, c.Path2)))
 			if h := sr.set.scan(c.Data); h != nil {
 				report("storage."+c.Op, c.Op, c.Path+" "+c.Path2, c.Data, h)
 			}
 			if sr.set.hasPublic(c.Data) {
-				r.Count("a_public_keys_seen_in_written_blobs(positive control)", 1)
+				r.Count(pfx+"public_keys_seen_in_written_blobs(positive control)", 1)
 			}
 		case c.Op == "ReadFile" || c.Op == "Get":
 			if len(c.Out) == 0 {
 				continue
 			}
 			r.Case()
-			r.Count("a_blobs_scanned_storage_reads", 1)
+			r.Count(pfx+"blobs_scanned_storage_reads", 1)
 			if h := sr.set.scan(c.Out); h != nil {
 				report("storage(read back)."+c.Op, c.Op, c.Path, c.Out, h)
 			}
@@ -429,7 +442,7 @@ func runSecretsHistory(r *ev.Run, idx int) {
 				continue
 			}
 			r.Case()
-			r.Count("a_blobs_scanned_cache_entries", 1)
+			r.Count(pfx+"blobs_scanned_cache_entries", 1)
 			r.Distinct(fmt.Sprintf("%s|a|cache.Add|%s", cfg.name, cacheRole(c.Path)))
 			if h := sr.set.scan(c.Data); h != nil {
 				report("key-cache", "cache.Add", c.Path, c.Data, h)
@@ -438,15 +451,18 @@ func runSecretsHistory(r *ev.Run, idx int) {
 	}
 	for _, b := range sr.bundles {
 		r.Case()
-		r.Count("a_blobs_scanned_export_bundles", 1)
+		r.Count(pfx+"blobs_scanned_export_bundles", 1)
 		r.Distinct(fmt.Sprintf("%s|a|bundle|%s", cfg.name, b.via))
 		if h := sr.set.scan(b.data); h != nil {
 			report("export-bundle", b.via, "", b.data, h)
 		}
 	}
 	// (e) permissions of everything this history created on the real filesystem
-	if g.dir != "" {
+	if g.dir != "" && g.redis == nil {
 		checkModes(r, cfg, g.dir, idx, sr.trace)
+	}
+	if after != nil {
+		after(sr)
 	}
 	r.SampleN("a/"+cfg.name, 1, map[string]interface{}{"oracle": "a", "config": cfg.name, "history": idx, "steps": sr.trace,
 		"secrets_known": len(sr.set.names), "storage_calls": g.log.Len(), "bundles": len(sr.bundles)})
